@@ -20,9 +20,14 @@ import (
 )
 
 // powNonceSweep follows every worker of a Mine call batch by batch with a scripted hash that reads the nonce each lane
-// actually encodes (trits 192..239 of the block, b1t6, little endian): lane j of batch b of a worker must carry
-// start + 64*b + j, for every batch up to and beyond the first carries out of the low nonce bytes. Nothing qualifies
-// before batch `until`; there every lane qualifies, and the nonce Mine returns must be the one its lane encoded.
+// actually encodes (trits 192..239 of the block, b1t6, little endian). Nothing qualifies before batch `until`; there every
+// lane qualifies, and the nonce Mine returns must be one that a qualifying lane encoded.
+//
+// Lanes before `until` cannot be judged by a return value (they do not hit). They are screened with the structure the
+// code uses today - lane j of batch b of the worker that started at st carries st + 64*b + j, start nonces i*floor(2^64/N) -
+// but that structure is a mechanism, not the property: a deviation is only a SUSPECT. Each suspect is then decided on
+// the property's terms by a confirmation run in which exactly that lane qualifies: Mine must return the nonce the lane
+// encoded. A different but consistent numbering of lanes passes; a lane reported under a nonce it did not hash fails.
 func powNonceSweep(c *core.Ctx, id string, version int, workers int, until int) {
 	var unq, qual [2][consts.HashTrinarySize]uint // l,h planes: unqualified (trit 1 everywhere) and qualified (all zero trits)
 	for i := range unq[0] {
@@ -34,11 +39,6 @@ func powNonceSweep(c *core.Ctx, id string, version int, workers int, until int) 
 			unq[0][i], unq[1][i] = ^uint(0), 0 // trit -1 everywhere: the largest hash
 		}
 	}
-	var mu sync.Mutex
-	starts := map[*vbct.Curl]uint64{}
-	encoded := map[uint64]bool{} // nonces of the qualifying batch, as encoded
-	var firstBad string
-	bad := 0
 	width := uint64(math.MaxUint64) / uint64(workers)
 	decode := func(t trinary.Trits) (uint64, bool) {
 		var b [8]byte
@@ -51,64 +51,132 @@ func powNonceSweep(c *core.Ctx, id string, version int, workers int, until int) 
 		}
 		return binary.LittleEndian.Uint64(b[:]), true
 	}
-	vbct.ScriptEx = func(obj *vbct.Curl, batch int, src []trinary.Trits, l, h *[consts.HashTrinarySize]uint) {
+	type suspect struct {
+		st          uint64
+		batch, lane int
+		what        string
+	}
+	type outcome struct {
+		nonce    uint64
+		err      error
+		p        interface{}
+		gp       []string
+		encoded  map[uint64]bool // nonces encoded by qualifying lanes
+		invalid  bool            // a qualifying lane did not hold a valid b1t6 nonce
+		hit      bool            // some lane was reported as qualifying
+		suspects []suspect
+		nsusp    int
+	}
+	// run: all lanes of batches >= until qualify; additionally the single lane `only` (if set) qualifies
+	run := func(until int, only *suspect, screen bool) *outcome {
+		o := &outcome{encoded: map[uint64]bool{}}
+		var mu sync.Mutex
+		starts := map[*vbct.Curl]uint64{}
+		vbct.ScriptEx = func(obj *vbct.Curl, batch int, src []trinary.Trits, l, h *[consts.HashTrinarySize]uint) {
+			mu.Lock()
+			defer mu.Unlock()
+			n0, ok0 := decode(src[0])
+			if batch == 0 {
+				starts[obj] = n0
+				if screen && (!ok0 || n0%width != 0 || n0/width >= uint64(workers)) {
+					o.nsusp++
+					if len(o.suspects) < 3 {
+						o.suspects = append(o.suspects, suspect{n0, 0, 0, fmt.Sprintf("first batch of a worker starts at encoded nonce %d, which is not one of the %d start nonces i*floor((2^64-1)/%d)", n0, workers, workers)})
+					}
+				}
+			}
+			st := starts[obj]
+			if screen {
+				for j := range src {
+					n, ok := decode(src[j])
+					want := st + 64*uint64(batch) + uint64(j)
+					if !ok || n != want {
+						o.nsusp++
+						if len(o.suspects) < 3 {
+							o.suspects = append(o.suspects, suspect{st, batch, j, fmt.Sprintf("%d workers: the worker starting at %d encodes nonce %d (valid b1t6: %v) in lane %d of its batch %d, where its lane numbering suggests nonce %d", workers, st, n, ok, j, batch, want)})
+						}
+					}
+				}
+			}
+			myUntil := until
+			if only != nil && st != only.st {
+				myUntil = until + 4096 // confirmation run: the other workers only qualify far later (termination)
+			}
+			switch {
+			case batch >= myUntil:
+				o.hit = true
+				for j := range src {
+					n, ok := decode(src[j])
+					if ok {
+						o.encoded[n] = true
+					} else {
+						o.invalid = true
+					}
+				}
+				*l, *h = qual[0], qual[1]
+			case only != nil && st == only.st && batch == only.batch && only.lane < len(src):
+				o.hit = true
+				n, ok := decode(src[only.lane])
+				if ok {
+					o.encoded[n] = true
+				} else {
+					o.invalid = true
+				}
+				*l, *h = unq[0], unq[1]
+				bit := uint(1) << uint(only.lane)
+				for i := range l {
+					l[i] = l[i]&^bit | qual[0][i]&bit
+					h[i] = h[i]&^bit | qual[1][i]&bit
+				}
+			default:
+				*l, *h = unq[0], unq[1]
+			}
+		}
+		defer func() { vbct.ScriptEx = nil }()
+		data := []byte("nonce sweep")
+		o.p = core.Catch(func() {
+			if version == 1 {
+				o.nonce, o.err = pow.New(workers).Mine(context.Background(), data, math.Pow(3, 5)/float64(len(data)+8))
+			} else {
+				o.nonce, o.err = powv2.New(workers).Mine(context.Background(), data, 10)
+			}
+		})
+		vsched.PassThroughWait()
+		o.gp = vsched.PassThroughPanics()
 		mu.Lock()
 		defer mu.Unlock()
-		n0, ok0 := decode(src[0])
-		if batch == 0 {
-			starts[obj] = n0
-			if !ok0 || n0%width != 0 || n0/width >= uint64(workers) {
-				bad++
-				if firstBad == "" {
-					firstBad = fmt.Sprintf("first batch of a worker starts at encoded nonce %d, which is not one of the %d start nonces i*floor((2^64-1)/%d)", n0, workers, workers)
-				}
-			}
-		}
-		st := starts[obj]
-		for j := range src {
-			n, ok := decode(src[j])
-			want := st + 64*uint64(batch) + uint64(j)
-			if !ok || n != want {
-				bad++
-				if firstBad == "" {
-					firstBad = fmt.Sprintf("%d workers: the worker starting at %d encodes nonce %d (valid b1t6: %v) in lane %d of its batch %d; it reports that lane as nonce %d", workers, st, n, ok, j, batch, want)
-				}
-			}
-			if batch == until {
-				encoded[n] = true
-			}
-		}
-		if batch >= until {
-			*l, *h = qual[0], qual[1]
-		} else {
-			*l, *h = unq[0], unq[1]
-		}
+		vbct.ScriptEx = nil
+		return o
 	}
-	defer func() { vbct.ScriptEx = nil }()
-	data := []byte("nonce sweep")
-	var nonce uint64
-	var err error
-	p := core.Catch(func() {
-		if version == 1 {
-			nonce, err = pow.New(workers).Mine(context.Background(), data, math.Pow(3, 5)/float64(len(data)+8))
-		} else {
-			nonce, err = powv2.New(workers).Mine(context.Background(), data, 10)
-		}
-	})
-	vsched.PassThroughWait()
-	gp := vsched.PassThroughPanics()
-	c.Eval(int64(until+1) * int64(workers) * 64)
-	cas := map[string]interface{}{"version": version, "workers": workers, "batches_followed": until + 1}
 	key := fmt.Sprintf("%s/nonce-encoding/v%d", id, version)
-	mu.Lock()
-	defer mu.Unlock()
-	switch {
-	case p != nil || err != nil || len(gp) > 0:
-		c.Violate(key+"/error", fmt.Sprintf("%d workers: Mine failed under the scripted hash: %v %v %v", workers, p, err, gp), cas, "", nil)
-	case bad > 0:
-		c.Violate(key+"/lane-carries-other-nonce", firstBad+fmt.Sprintf(" (%d lanes in total); a hit in such a lane is returned under a nonce that was never hashed", bad), cas, "", nil)
-	case !encoded[nonce]:
-		c.Violate(key+"/returned-nonce-not-hashed", fmt.Sprintf("%d workers: Mine returned nonce %d, which no lane of the qualifying batch encoded", workers, nonce), cas, "", nil)
+	cas := map[string]interface{}{"version": version, "workers": workers, "batches_followed": until + 1}
+	judge := func(o *outcome, how string) bool {
+		switch {
+		case o.p != nil || o.err != nil || len(o.gp) > 0:
+			c.Violate(key+"/error", fmt.Sprintf("%d workers: Mine failed under the scripted hash (%s): %v %v %v", workers, how, o.p, o.err, o.gp), cas, "", nil)
+			return false
+		case !o.encoded[o.nonce]:
+			c.Violate(key+"/returned-nonce-not-hashed", fmt.Sprintf("%d workers, %s: Mine returned nonce %d, but no qualifying lane had hashed that nonce (a qualifying lane holding an invalid b1t6 nonce: %v)", workers, how, o.nonce, o.invalid), cas, "", nil)
+			return false
+		}
+		return true
+	}
+	o := run(until, nil, true)
+	c.Eval(int64(until+1) * int64(workers) * 64)
+	if !judge(o, fmt.Sprintf("every lane qualifies from batch %d on", until)) {
+		return
+	}
+	for i := range o.suspects {
+		sp := o.suspects[i]
+		oc := run(sp.batch+8, &sp, false)
+		c.Eval(int64(sp.batch+1) * int64(workers) * 64)
+		c.Add("nonce_encoding_suspects_confirmed_by_a_single_lane_run", 1)
+		if !oc.hit {
+			continue // the worker could not be identified again: nothing qualified, nothing to judge
+		}
+		if !judge(oc, sp.what+"; confirmation run in which only that lane qualifies") {
+			return
+		}
 	}
 }
 
